@@ -206,6 +206,29 @@ theorem scale_partial_read (dflt : ν) (g : ν → ν) (hg : g dflt = dflt) (d :
 
 end
 
+/-! ### in-place addition of a scalar through the handle of a leaf fiber -/
+section
+variable {κ ν : Type} [LT κ] [DecidableRel (α := κ) (· < ·)] [DecidableEq κ] [StrictTotal κ] [DecidableEq ν]
+
+/-- `h = t.getPayloadRef(*p)` for a prefix `p` one short of a full point (a leaf fiber), then `h += v`: the library
+    walks the coordinates `cs` of the rank's extent with `iterShapeRef` and adds to every one of them.  In the model
+    this is the history `ref p; iadd (p ++ [c]) v` for `c ∈ cs`, so it refines the abstract map like any other history:
+    every point `p ++ [c]` then reads its old value plus `v` (the default plus `v` where nothing was stored), every
+    other point is untouched. -/
+theorem iadd_scalar_leaf_fiber [Add ν] (dflt : ν) (d : Nat) (t : Tree κ ν d) (m : List κ → ν) (h : WF d t)
+    (ha : Abs dflt d t m) (p : List κ) (hp : p.length + 1 = d) (cs : List κ) (v : ν) :
+    let ops := cs.map (fun c => PointOp.iadd (p ++ [c]) v)
+    (pointRun dflt d (refAt dflt d t p) ops).2 = specRun m ops ∧ WF d (pointRun dflt d (refAt dflt d t p) ops).1 := by
+  intro ops
+  refine run_refines_map dflt d ops (refAt dflt d t p) m (refAt_wf dflt d t h p)
+    (fun q hq => by rw [refAt_val dflt d t h p]; exact ha q hq) ?_
+  intro op hop
+  obtain ⟨c, _, rfl⟩ := List.mem_map.1 hop
+  show (p ++ [c]).length = d
+  simp; omega
+
+end
+
 /-! ### non-vacuity -/
 section
 private def exT : Tree Int Int 2 := [(0, [(1, (5 : Int)), (2, (0 : Int))]), (3, []), (4, [(0, (7 : Int))])]
